@@ -25,6 +25,11 @@ type varStore struct {
 
 	predefVarRef map[*runtime.Function]map[*reflect.Value]int16
 
+	// predefGlobal maps a predefined variable to its index in globals: a
+	// variable has one entry, whatever the number of functions that refer
+	// to it.
+	predefGlobal map[*reflect.Value]int16
+
 	// Holds all Scriggo-defined and pre-predefined global variables.
 	globals []Global
 
@@ -38,6 +43,7 @@ func newVarStore(emitter *emitter, indirectVars map[*ast.Identifier]bool) *varSt
 	return &varStore{
 		emitter:               emitter,
 		predefVarRef:          map[*runtime.Function]map[*reflect.Value]int16{},
+		predefGlobal:          map[*reflect.Value]int16{},
 		indirectVars:          indirectVars,
 		scriggoPackageVarRefs: map[*ast.Package]map[string]int16{},
 		closureVars:           map[*runtime.Function]map[string]int16{},
@@ -83,15 +89,19 @@ func (vs *varStore) predefVarIndex(v *reflect.Value, typ reflect.Type, pkg, name
 	if index, ok := vs.predefVarRef[currFn][v]; ok {
 		return index
 	}
-	index := int16(len(vs.globals))
-	g := newGlobal(pkg, name, typ, reflect.Value{})
-	if v.IsValid() {
-		g.Value = *v
+	index, ok := vs.predefGlobal[v]
+	if !ok {
+		index = int16(len(vs.globals))
+		g := newGlobal(pkg, name, typ, reflect.Value{})
+		if v.IsValid() {
+			g.Value = *v
+		}
+		vs.globals = append(vs.globals, g)
+		vs.predefGlobal[v] = index
 	}
 	if vs.predefVarRef[currFn] == nil {
 		vs.predefVarRef[currFn] = map[*reflect.Value]int16{}
 	}
-	vs.globals = append(vs.globals, g)
 	vs.predefVarRef[currFn][v] = index
 	return index
 }
